@@ -930,3 +930,73 @@ pub fn run_config_case_isolated(kind: Kind, cfg: &[u8]) -> Option<String> {
         }
     }
 }
+
+// ------------------------------------------------------------------------------------------
+// Part H: long sessions. "Every call ends" must also hold for call number 65 536 and later, when
+// the free-running 16-bit ring indices of the queue have wrapped. A linear run (one execution,
+// honest device): the entropy driver's blocking request and the raw queue's blocking helper.
+
+/// Returns (requests made, violations).
+pub fn run_long_session(tkind: TKind, requests: u32, features: u64) -> (u64, Vec<(String, String)>) {
+    struct VL {
+        requests: u32,
+    }
+    impl TransportVisitor for VL {
+        type Out = (u64, Vec<(String, String)>);
+        fn visit<T: Transport + 'static>(self, t: T, w: &DWorld) -> Self::Out {
+            let co: CoRc = CoDevice::new(
+                w.dev.clone(),
+                Box::new(move |_q, chain, _readable| {
+                    let wl = chain.writable_len();
+                    Action::Complete((0..wl).map(|i| 0x40 + i as u8).collect(), wl as u32)
+                }),
+            );
+            co.borrow_mut().spin_horizon = 16;
+            cosim::install(&co);
+            let mut out = vec![];
+            let mut rng = match virtio_drivers::device::rng::VirtIORng::<LabHal, T>::new(t) {
+                Ok(r) => r,
+                Err(e) => {
+                    cosim::uninstall();
+                    return (0, vec![("construction".into(), format!("{:?}", e))]);
+                }
+            };
+            let mut n = 0u64;
+            for i in 0..self.requests {
+                co.borrow_mut().spins = 0;
+                if i % 1024 == 0 {
+                    hal::with(|h| h.compact());
+                    co.borrow_mut().served.clear();
+                }
+                let mut dst = [0u8; 5];
+                let r = crate::util::catch(|| rng.request_entropy(&mut dst));
+                n += 1;
+                match r {
+                    Ok(Ok(5)) if dst == [0x40, 0x41, 0x42, 0x43, 0x44] => {}
+                    Ok(other) => {
+                        out.push(("long-session-result".into(), format!("request {} of an honest session returned {:?} with data {:x?}", i, other, dst)));
+                        break;
+                    }
+                    Err(p) if p.contains("LAB-LIVELOCK") => {
+                        out.push(("livelock".into(), format!("blocking request number {} (counting from 0) of a session with an honest device never returns: {}", i, p)));
+                        break;
+                    }
+                    Err(_) => break,
+                }
+            }
+            // The driver is forgotten rather than dropped if a wait was abandoned half-way.
+            if out.is_empty() {
+                drop(rng);
+            } else {
+                std::mem::forget(rng);
+            }
+            cosim::uninstall();
+            (n, out)
+        }
+    }
+    hal::reset();
+    let w = DWorld::new(Kind::Rng, tkind, features, vec![]);
+    let r = w.with_transport(VL { requests });
+    mmio::set_handler(None);
+    r
+}
